@@ -78,6 +78,9 @@ Cases ==
   \cup {[w |-> "PeriodicToken", p |-> p, token |-> t] : p \in {5, 10}, t \in {"neg_tiny", "neg_zero", "huge", "neg_huge", "exact_multiple", "neg_exact_multiple", "just_below_period"}}
   \cup {[w |-> "PolygonMask2D", poly |-> i, X |-> pt[1], Y |-> pt[2]] : i \in 1..6, pt \in HalfPts}
   \cup {[w |-> "sample1d", lo |-> lo, hi |-> hi, n |-> n] : lo \in {-5}, hi \in {-5, 7}, n \in {1, 2, 3, 5}}
+  \* sample counts for which lo + (n - 1) * fl((hi - lo) / (n - 1)) does not round back to hi: the last point is hi itself all the same
+  \cup {[w |-> "sample1d", lo |-> 0, hi |-> 10, n |-> n] : n \in {50, 99, 104}} \cup {[w |-> "sample1d", lo |-> 3, hi |-> 9, n |-> 162]}
+  \cup {[w |-> "sample1d", lo |-> -10, hi |-> 10, n |-> n] : n \in {108, 188}}
   \cup {[w |-> "sample2d", n |-> n, m |-> m] : n \in {1, 2, 4}, m \in {1, 3}}
   \cup {[w |-> "sample3d", n |-> n, m |-> m, k |-> k] : n \in {1, 3}, m \in {1, 2}, k \in {1, 4}}
 
@@ -127,6 +130,8 @@ PeriodicInRange == c.w = "PeriodicTransform1D" => LET e == Expected(c).inner[1] 
 ClampInRange == c.w = "ClampInput1D" /\ c.lo <= c.hi => LET e == Expected(c).inner[1] IN c.lo <= e /\ e <= c.hi
 \* orientation of the vertex list does not matter (polygons 1/2 and 3/4 are reversals of each other)
 OrientationIrrelevant == c.w = "PolygonMask2D" /\ c.poly \in {1, 3} => Inside(Poly(c.poly), c.X, c.Y) = Inside(Poly(c.poly + 1), c.X, c.Y)
+\* the sampling grid starts at lo and ends at hi exactly
+GridHitsBothEnds == c.w = "sample1d" /\ c.n >= 2 => LET xs == Expected(c).xs IN xs[1] = <<c.lo * (c.n - 1), c.n - 1>> /\ xs[c.n] = <<c.hi * (c.n - 1), c.n - 1>>
 SwizzleIsProjection == c.w = "Swizzle3D" => \A i \in 1..3 : Expected(c).inner[i] \in {c.x, c.y, c.z}
 
 EmitCase == PrintT(ToJson([case |-> c, exp |-> Expected(c), D |-> D]))
